@@ -29,6 +29,8 @@ func main() {
 	commands["render"] = cmdRender
 	commands["gen"] = cmdGen
 	commands["lex"] = cmdLex
+	commands["purity"] = cmdPurity
+	commands["purityrun"] = cmdPurityRun
 	commands["strcases"] = cmdStrCases
 	commands["total"] = cmdTotal
 	commands["worker"] = cmdWorker
